@@ -2,6 +2,8 @@
 // at run time into ./pipen) with call-logging, pairwise non-commuting affine functions.
 // line in:  n x a1 b1 ... an bn      (x = -1: the argument is the nil interface value)
 // line out: result | trace   ||   result | trace      (the SAME composed function applied twice to the same argument)
+// line in:  par n x a1 b1 ... an bn  -> ONE composed function (stages without the call log) called concurrently from 8
+//           goroutines with the arguments x, x+1, ..., x+7, 3000 times each; out: "ok" or "mismatch arg=… got=… want=…"
 package main
 
 import (
@@ -10,6 +12,7 @@ import (
 	"os"
 	"strconv"
 	"strings"
+	"sync"
 
 	pure "harness/pipen"
 )
@@ -88,6 +91,54 @@ func call(g func(any) any, x any) (r any, ok bool) {
 	return g(x), true
 }
 
+// pure stage (no call log): safe to call from several goroutines
+func mkPure(a, b int64) func(any) any {
+	return func(v any) any {
+		var x int64
+		if v != nil {
+			x = v.(int64)
+		}
+		return (a*x + b) % modulus
+	}
+}
+
+func concurrent(n int, x int64, ab []int64) string {
+	f := make([]func(any) any, n)
+	for i := 0; i < n; i++ {
+		f[i] = mkPure(ab[2*i], ab[2*i+1])
+	}
+	g, ok := apply(n, nil, f)
+	if !ok {
+		return "panic"
+	}
+	var wg sync.WaitGroup
+	var mu sync.Mutex
+	res := "ok"
+	for k := int64(0); k < 8; k++ {
+		wg.Add(1)
+		go func(arg int64) {
+			defer wg.Done()
+			want := arg
+			for i := 0; i < n; i++ {
+				want = (ab[2*i]*want + ab[2*i+1]) % modulus
+			}
+			for it := 0; it < 3000; it++ {
+				r, ok := call(g, arg)
+				if !ok || r != any(want) {
+					mu.Lock()
+					if res == "ok" {
+						res = fmt.Sprintf("mismatch arg=%d got=%v want=%d", arg, r, want)
+					}
+					mu.Unlock()
+					return
+				}
+			}
+		}(x + k)
+	}
+	wg.Wait()
+	return res
+}
+
 func main() {
 	in := bufio.NewScanner(os.Stdin)
 	in.Buffer(make([]byte, 1<<20), 1<<20)
@@ -95,6 +146,10 @@ func main() {
 	defer out.Flush()
 	for in.Scan() {
 		w := strings.Fields(in.Text())
+		par := len(w) > 0 && w[0] == "par"
+		if par {
+			w = w[1:]
+		}
 		v := make([]int64, len(w))
 		bad := false
 		for i, s := range w {
@@ -109,6 +164,10 @@ func main() {
 			continue
 		}
 		n := int(v[0])
+		if par {
+			fmt.Fprintln(out, concurrent(n, v[1], v[2:]))
+			continue
+		}
 		f := make([]func(any) any, n)
 		for i := 0; i < n; i++ {
 			f[i] = mk(i+1, v[2+2*i], v[3+2*i])
